@@ -161,45 +161,52 @@ func init() {
 
 // ---- PANIC.recover ----------------------------------------------------------------------------------
 
-func rulePanicRecover(c *Ctx) []*Obligation {
-	o := newObl("PANIC.recover")
-	for _, fn := range c.AllLibFuncs() {
-		for _, b := range fn.Blocks {
-			for _, in := range b.Instrs {
-				d, ok := in.(*ssa.Defer)
-				if !ok {
-					continue
-				}
-				mc, ok := d.Call.Value.(*ssa.MakeClosure)
-				if !ok {
-					continue
-				}
-				cl := mc.Fn.(*ssa.Function)
-				callsRecover := false
-				for _, ci := range allCalls(cl) {
-					if bi, ok := ci.Common().Value.(*ssa.Builtin); ok && bi.Name() == "recover" {
-						callsRecover = true
+type recoverHandler struct {
+	deferInstr *ssa.Defer
+	stored     []string
+	bad        string
+}
+
+// callsRecoverDirectly: recover() only has effect when called directly by the deferred function.
+func callsRecoverDirectly(f *ssa.Function) bool {
+	for _, ci := range allCalls(f) {
+		if bi, ok := ci.Common().Value.(*ssa.Builtin); ok && bi.Name() == "recover" {
+			return true
+		}
+	}
+	return false
+}
+
+// recoverHandlers lists the deferred recover handlers of fn in both spellings: a closure assigning
+// captured variables, or a named helper deferred with the addresses of variables it stores through.
+func (c *Ctx) recoverHandlers(fn *ssa.Function) []*recoverHandler {
+	var out []*recoverHandler
+	// result slots returned after a panic: operands of the Return in the recover block
+	slots := map[ssa.Value]bool{}
+	if fn.Recover != nil {
+		for _, ri := range fn.Recover.Instrs {
+			if ret, ok := ri.(*ssa.Return); ok {
+				for _, rv := range ret.Results {
+					if ld, ok := rv.(*ssa.UnOp); ok && ld.Op == token.MUL {
+						slots[ld.X] = true
 					}
 				}
-				if !callsRecover {
+			}
+		}
+	}
+	for _, b := range fn.Blocks {
+		for _, in := range b.Instrs {
+			d, ok := in.(*ssa.Defer)
+			if !ok {
+				continue
+			}
+			h := &recoverHandler{deferInstr: d}
+			switch v := d.Call.Value.(type) {
+			case *ssa.MakeClosure:
+				cl := v.Fn.(*ssa.Function)
+				if !callsRecoverDirectly(cl) {
 					continue
 				}
-				key := c.FuncKey(fn) + "#recover-handler"
-				// result slots returned after a panic: operands of the Return in the recover block
-				slots := map[ssa.Value]bool{}
-				if fn.Recover != nil {
-					for _, ri := range fn.Recover.Instrs {
-						if ret, ok := ri.(*ssa.Return); ok {
-							for _, rv := range ret.Results {
-								if ld, ok := rv.(*ssa.UnOp); ok && ld.Op == token.MUL {
-									slots[ld.X] = true
-								}
-							}
-						}
-					}
-				}
-				var stored []string
-				bad := ""
 				for i, fv := range cl.FreeVars {
 					writes := false
 					for _, r := range *fv.Referrers() {
@@ -210,19 +217,54 @@ func rulePanicRecover(c *Ctx) []*Obligation {
 					if !writes {
 						continue
 					}
-					stored = append(stored, fv.Name())
-					if !slots[mc.Bindings[i]] {
-						bad = fmt.Sprintf("the handler assigns %q, which is not a named result of %s: after a recovered panic the function returns its (unassigned) result slots — a panicking call yields neither a value nor an error", fv.Name(), fn.Name())
+					h.stored = append(h.stored, fv.Name())
+					if !slots[v.Bindings[i]] {
+						h.bad = fmt.Sprintf("the handler assigns %q, which is not a named result of %s: after a recovered panic the function returns its (unassigned) result slots — a panicking call yields neither a value nor an error", fv.Name(), fn.Name())
 					}
 				}
-				if len(stored) == 0 {
-					bad = "the handler recovers the panic but assigns nothing: the panic is swallowed without producing an error"
+			case *ssa.Function:
+				if !callsRecoverDirectly(v) {
+					continue
 				}
-				if bad != "" {
-					o.bad(key, c.Pos(d.Pos()), bad)
-				} else {
-					o.ok(key, c.Pos(d.Pos()), "handler assigns the named result(s) "+strings.Join(stored, ", ")+" that the recover path returns")
+				for i, p := range v.Params {
+					if _, isPtr := p.Type().Underlying().(*types.Pointer); !isPtr {
+						continue
+					}
+					writes := false
+					for _, r := range *p.Referrers() {
+						if st, ok := r.(*ssa.Store); ok && st.Addr == ssa.Value(p) {
+							writes = true
+						}
+					}
+					if !writes || i >= len(d.Call.Args) {
+						continue
+					}
+					h.stored = append(h.stored, "*"+p.Name())
+					if !slots[d.Call.Args[i]] {
+						h.bad = fmt.Sprintf("the deferred helper %s stores through %q, which is not the address of a named result of %s: after a recovered panic the function returns its (unassigned) result slots", v.Name(), p.Name(), fn.Name())
+					}
 				}
+			default:
+				continue
+			}
+			if len(h.stored) == 0 {
+				h.bad = "the handler recovers the panic but assigns nothing: the panic is swallowed without producing an error"
+			}
+			out = append(out, h)
+		}
+	}
+	return out
+}
+
+func rulePanicRecover(c *Ctx) []*Obligation {
+	o := newObl("PANIC.recover")
+	for _, fn := range c.AllLibFuncs() {
+		for _, h := range c.recoverHandlers(fn) {
+			key := c.FuncKey(fn) + "#recover-handler"
+			if h.bad != "" {
+				o.bad(key, c.Pos(h.deferInstr.Pos()), h.bad)
+			} else {
+				o.ok(key, c.Pos(h.deferInstr.Pos()), "handler assigns the named result(s) "+strings.Join(h.stored, ", ")+" that the recover path returns")
 			}
 		}
 	}
@@ -459,8 +501,32 @@ func rulePanicIfaceCmp(c *Ctx) []*Obligation {
 						}
 					}
 				}
+				if c.recoveredIntoNamedResult(fn) {
+					o.ok(key, c.Pos(bo.Pos()), "the comparison runs under a deferred handler that recovers a panic into the function's named result: an uncomparable payload yields a result, not a crash")
+					continue
+				}
+				notObject := false
+				for _, g := range guardsAt(b) {
+					cond, truth := g.atom()
+					if x, ok := cond.(*ssa.BinOp); ok && (x.Op == token.EQL || x.Op == token.NEQ) {
+						if k, isK := constInt(x.Y); isK && names[k] == "Object" && (x.Op == token.EQL) != truth {
+							if ld, ok := x.X.(*ssa.UnOp); ok && ld.Op == token.MUL {
+								if fa, ok := ld.X.(*ssa.FieldAddr); ok && fieldName(fa.X.Type(), fa.Field) == "typ" {
+									notObject = true
+								}
+							}
+							if _, _, _, isT := c.typeTestConst(cond, pkgVariants, "Variant"); isT {
+								notObject = true
+							}
+						}
+					}
+				}
+				if notArray && notObject && tags == "" {
+					o.ok(key, c.Pos(bo.Pos()), "payloads compared only where the tag is neither Array nor Object (all other built-in payload types are comparable)")
+					continue
+				}
 				if notArray && tags == "" {
-					o.ok(key, c.Pos(bo.Pos()), "payloads compared only where the tag is not Array (built-in payload types other than []*Variant are comparable; Object payloads are caller-supplied host objects)")
+					o.bad(key, c.Pos(bo.Pos()), "payloads are compared with "+bo.Op.String()+" wherever the tag is not Array, Object included: an Object variant may hold a host value Go cannot compare (map, slice, function) and the comparison panics")
 					continue
 				}
 				switch tags {
@@ -469,7 +535,7 @@ func rulePanicIfaceCmp(c *Ctx) []*Obligation {
 				case "Array":
 					o.bad(key, c.Pos(bo.Pos()), "array payloads compared with "+bo.Op.String()+": runtime panic")
 				case "Object":
-					o.reviewed(key, c.Pos(bo.Pos()), "under case Object: the payload is a caller-supplied host object outside the supported value types of the property")
+					o.bad(key, c.Pos(bo.Pos()), "under case Object the payloads are compared with "+bo.Op.String()+": a host value Go cannot compare (map, slice, function) makes the comparison panic")
 				default:
 					o.ok(key, c.Pos(bo.Pos()), "payload comparison under tag "+tags+" (comparable)")
 				}
@@ -477,6 +543,17 @@ func rulePanicIfaceCmp(c *Ctx) []*Obligation {
 		}
 	}
 	return o.list
+}
+
+// recoveredIntoNamedResult: fn defers a handler (closure, or a helper given the address of a named
+// result) that calls recover() and assigns a named result of fn.
+func (c *Ctx) recoveredIntoNamedResult(fn *ssa.Function) bool {
+	for _, h := range c.recoverHandlers(fn) {
+		if h.bad == "" {
+			return true
+		}
+	}
+	return false
 }
 
 // ---- PANIC.progress ---------------------------------------------------------------------------------
@@ -678,19 +755,28 @@ func (c *Ctx) dischargePanic(fn *ssa.Function, p *ssa.Panic, e *tagEngine) (stri
 	fk := c.FuncKey(fn)
 	switch {
 	case strings.HasSuffix(fk, "CalculationStack).Pop") || strings.HasSuffix(fk, "CalculationStack).Peek") || strings.HasSuffix(fk, "CalculationStack).PeekAt"):
-		// the stack discipline: emission arities and pop counts agree (GRAM.arity), handlers pop what was compiled (GRAM.operands)
-		for _, rid := range []string{"GRAM.arity", "GRAM.operands", "GRAM.postorder"} {
-			res := runRule(c, rid)
-			if res.broken != "" {
-				return rid + " could not run", false
+		// the stack discipline needs only the COUNTING obligations of GRAM.arity: operands compiled
+		// before an operator's emission = values its handler pops; the argument counter counts the
+		// compiled arguments; the call handler pops the count and then count values. Which level an
+		// operand is parsed at and the order operands are used in are irrelevant for underflow.
+		res := runRule(c, "GRAM.arity")
+		if res.broken != "" {
+			return "GRAM.arity could not run", false
+		}
+		n := 0
+		for _, ob := range res.obls {
+			if !(strings.Contains(ob.Construct, "#arity#") || strings.Contains(ob.Construct, "#call#count-") || strings.Contains(ob.Construct, "#call#pops-")) {
+				continue
 			}
-			for _, ob := range res.obls {
-				if ob.Status != Discharged {
-					return "the stack-discipline argument needs " + rid + ", which has an open obligation: " + ob.Key(), false
-				}
+			n++
+			if ob.Status != Discharged {
+				return "the stack-discipline argument needs the counting obligation " + ob.Key() + ", which is open", false
 			}
 		}
-		return "stack never underflows: parser emission arities equal handler pop counts and every operator follows its operands (GRAM.arity, GRAM.operands, GRAM.postorder hold)", true
+		if n < 20 {
+			return "the stack-discipline argument found too few counting obligations", false
+		}
+		return fmt.Sprintf("stack never underflows: for every operator the operands compiled before its emission equal the values its handler pops, and the call handler pops exactly the compiled argument count (%d counting obligations of GRAM.arity hold)", n), true
 	case strings.Contains(fk, "CommentState).NextToken"):
 		// registered only for '/': every SetCharacterState(a, b, commentState) has a == b == '/'
 		return c.commentStateOnlySlash()
